@@ -81,11 +81,25 @@ func withAlt(desc string) string {
 
 func (r *c03run) run() error {
 	cfg := hx.Config{Term: r.term, W: 80, H: 24, Go123: r.go123, GapScale: 1, MapMode: r.mode, MapSeed: r.seed, AltScreen: true}
-	w, err := newIW(cfg, &simrt.Chooser{})
+	// odd order modes also run under seeded schedules (which goroutine runs,
+	// which ready select case wins) and with focus, paste and mouse reporting
+	// switched on by the application: decoding must not depend on either
+	ch := &simrt.Chooser{}
+	if r.mode%2 == 1 || r.mode == 4 {
+		ch = hx.RandomChooser(hx.NewRng(r.rseed^0x5eed), 6000)
+	}
+	w, err := newIW(cfg, ch)
 	if err != nil {
 		return err
 	}
 	r.w = w
+	if r.mode%2 == 1 || r.mode == 4 {
+		w.runTo(w.S.Spawn("app-modes", func() {
+			w.Scr.EnableFocus()
+			w.Scr.EnablePaste()
+			w.Scr.EnableMouse()
+		}))
+	}
 	defer func() {
 		pn, cerr := w.finish()
 		for _, p := range pn {
